@@ -405,6 +405,8 @@ def date(year, month_, day):
 
     # taking into account negative month and day values
     year, month_, day = normalize_year(year, month_, day)
+    if year > 9999:
+        return NUM_ERROR
 
     try:
         result = (dt.datetime(year, month_, day) - DATE_ZERO).days
@@ -503,7 +505,8 @@ def months_inc(start_date, months, eomonth=False):
         return NUM_ERROR
     y, m, d = date_from_int(start_date)
     if eomonth:
-        return date(y, m + months + 1, 1) - 1
+        result = date(y, m + months + 1, 1)
+        return result if result in ERROR_CODES else result - 1
     else:
         return date(y, m + months, d)
 
